@@ -185,6 +185,177 @@ static void prog_rp(thr_t *t, hx_rng *r)
    free(in);
 }
 
+
+/* ---- pair mode: objects that the CALLER has related - a byte copy of another object, or a neighbour in one arena ----
+   hx_par concp|solop <seed> <nthreads (even)> <rounds>.  Threads 2p and 2p+1 form pair p.  The pair's set-up (made by
+   the main thread before any worker starts, a function of (seed, p) only) creates both threads' objects:
+     kind 0  a multistream decoder with some history, and a copy of it made with memcpy of get_size bytes
+     kind 1  an encoder + decoder with some history, and copies of both
+     kind 2  one arena holding, back to back at their get_size sizes: a plain 3-channel multistream encoder (thread 2p),
+             a repacketizer and a decoder (thread 2p+1)
+     kind 3  one arena: an ambisonics projection encoder (thread 2p), then an encoder (thread 2p+1)
+     kind 4  a surround (5.1) multistream encoder with history and a copy of it
+   Each thread then uses its own object(s) only.  In the first half of every round the two threads take strict turns
+   (thread 2p+1 acts, thread 2p acts, thread 2p+1 acts), so an object that reaches into the other one's memory - through a
+   stored absolute pointer that the copy inherited, or by writing past its own size - changes what the other returns on a
+   schedule that does not depend on the OS; in the second half they run freely (races for ThreadSanitizer).
+   The solo run of thread i makes the same set-up and then runs thread i's part alone. */
+#include "opus_projection.h"
+#define PK 16
+typedef struct {
+   int kind, fs, ch, frame, streams, coupled;
+   unsigned char mapping[8];
+   unsigned char *blk[4]; size_t sz[4];          /* separately allocated objects (clone kinds): A0 A1 (thread 2p), B0 B1 (thread 2p+1) */
+   unsigned char *arena; size_t off[4];          /* arena kinds */
+   unsigned char pk[2][PK][1500]; int pl[2][PK]; /* packet streams X (thread 2p) and Y (thread 2p+1) */
+   opus_int16 *sig[2];                           /* input signals X, Y: PK frames each */
+   pthread_barrier_t bar2; int use_bar;
+} pair_t;
+
+static size_t al16(size_t x) { return (x + 15) & ~(size_t)15; }
+
+static void pair_setup(pair_t *P, uint64_t seed, int p, int rd)
+{
+   hx_rng r; int i, j, err = 0; double ph = 0;
+   memset(P, 0, sizeof *P);
+   r.s = seed * 0x9E3779B97F4A7C15ULL + (uint64_t)p * 0xA24BAED4963EE407ULL + (uint64_t)rd * 0x9FB21C651E98DF25ULL + 11;
+   P->kind = (p + rd) % 5; P->fs = 48000; P->frame = 960;
+   P->ch = (P->kind == 0 || P->kind == 2) ? 3 : P->kind == 3 ? 4 : P->kind == 4 ? 6 : 2;
+   for (j = 0; j < 2; j++) {
+      P->sig[j] = (opus_int16 *)malloc(sizeof(opus_int16) * (size_t)P->frame * (size_t)P->ch * PK);
+      ph = j; gen(&r, &ph, P->sig[j], P->frame * PK, P->ch, P->fs, j + (int)hx_u(&r, 2));
+   }
+   if (P->kind == 0) {
+      /* packets from two surround encoders; decoder A with 6 frames of history, B = copy */
+      OpusMSEncoder *e[2]; OpusMSDecoder *A; opus_int16 *out = (opus_int16 *)malloc(sizeof(opus_int16) * 960 * 3);
+      for (j = 0; j < 2; j++) {
+         e[j] = opus_multistream_surround_encoder_create(P->fs, 3, 1, &P->streams, &P->coupled, P->mapping, OPUS_APPLICATION_AUDIO, &err);
+         opus_multistream_encoder_ctl(e[j], OPUS_SET_BITRATE(96000 + 32000 * j));
+         for (i = 0; i < PK; i++) P->pl[j][i] = opus_multistream_encode(e[j], P->sig[j] + (size_t)i * 960 * 3, 960, P->pk[j][i], 1500);
+         opus_multistream_encoder_destroy(e[j]);
+      }
+      P->sz[0] = P->sz[2] = (size_t)opus_multistream_decoder_get_size(P->streams, P->coupled);
+      P->blk[0] = (unsigned char *)malloc(P->sz[0]); P->blk[2] = (unsigned char *)malloc(P->sz[2]);
+      A = (OpusMSDecoder *)P->blk[0];
+      opus_multistream_decoder_init(A, P->fs, 3, P->streams, P->coupled, P->mapping);
+      for (i = 0; i < 6; i++) if (P->pl[0][i] > 0) opus_multistream_decode(A, P->pk[0][i], P->pl[0][i], out, 960, 0);
+      memcpy(P->blk[2], P->blk[0], P->sz[0]);
+      free(out);
+   } else if (P->kind == 1) {
+      OpusEncoder *E; OpusDecoder *D; opus_int16 *out = (opus_int16 *)malloc(sizeof(opus_int16) * 960 * 2); unsigned char tmp[1500];
+      P->sz[0] = P->sz[2] = (size_t)opus_encoder_get_size(2); P->sz[1] = P->sz[3] = (size_t)opus_decoder_get_size(2);
+      for (i = 0; i < 4; i++) P->blk[i] = (unsigned char *)malloc(P->sz[i]);
+      E = (OpusEncoder *)P->blk[0]; D = (OpusDecoder *)P->blk[1];
+      opus_encoder_init(E, P->fs, 2, hx_u(&r, 2) ? OPUS_APPLICATION_AUDIO : OPUS_APPLICATION_VOIP);
+      opus_encoder_ctl(E, OPUS_SET_BITRATE(BRS[2 + hx_u(&r, 5)]));
+      opus_decoder_init(D, P->fs, 2);
+      for (i = 0; i < 5; i++) { int n = opus_encode(E, P->sig[0] + (size_t)i * 960 * 2, 960, tmp, 1500); if (n > 0) opus_decode(D, tmp, n, out, 960, 0); }
+      memcpy(P->blk[2], P->blk[0], P->sz[0]); memcpy(P->blk[3], P->blk[1], P->sz[1]);
+      free(out);
+   } else if (P->kind == 2) {
+      /* arena: [multistream encoder, plain API, 3 channels / 2 streams / 1 coupled][repacketizer][decoder] */
+      size_t s0 = (size_t)opus_multistream_encoder_get_size(2, 1), s1 = (size_t)opus_repacketizer_get_size(), s2 = (size_t)opus_decoder_get_size(2);
+      OpusEncoder *e2 = opus_encoder_create(P->fs, 2, OPUS_APPLICATION_AUDIO, &err);
+      P->streams = 2; P->coupled = 1; P->mapping[0] = 0; P->mapping[1] = 1; P->mapping[2] = 2;
+      P->off[0] = 0; P->off[1] = al16(s0) == s0 ? s0 : s0; P->off[2] = P->off[1] + s1; P->off[3] = P->off[2] + s2;
+      P->arena = (unsigned char *)malloc(P->off[3]);
+      memset(P->arena, 0x5a, P->off[3]);
+      opus_multistream_encoder_init((OpusMSEncoder *)(P->arena + P->off[0]), P->fs, 3, 2, 1, P->mapping, OPUS_APPLICATION_AUDIO);
+      opus_repacketizer_init((OpusRepacketizer *)(P->arena + P->off[1]));
+      opus_decoder_init((OpusDecoder *)(P->arena + P->off[2]), P->fs, 2);
+      opus_encoder_ctl(e2, OPUS_SET_BITRATE(24000));
+      for (i = 0; i < PK; i++) { opus_int16 st[960 * 2]; int k; for (k = 0; k < 960; k++) { st[2 * k] = P->sig[1][((size_t)i * 960 + k) * 3]; st[2 * k + 1] = P->sig[1][((size_t)i * 960 + k) * 3 + 1]; }
+         P->pl[1][i] = opus_encode(e2, st, 960, P->pk[1][i], 300); }
+      opus_encoder_destroy(e2);
+   } else if (P->kind == 3) {
+      /* arena: [ambisonics projection encoder, 4 channels][encoder] */
+      int st = 0, cp = 0; size_t s0 = (size_t)opus_projection_ambisonics_encoder_get_size(4, 3), s1 = (size_t)opus_encoder_get_size(2);
+      P->off[0] = 0; P->off[1] = s0; P->off[2] = s0 + s1;
+      P->arena = (unsigned char *)malloc(P->off[2]);
+      memset(P->arena, 0xa5, P->off[2]);
+      opus_projection_ambisonics_encoder_init((OpusProjectionEncoder *)P->arena, P->fs, 4, 3, &st, &cp, OPUS_APPLICATION_AUDIO);
+      opus_encoder_init((OpusEncoder *)(P->arena + P->off[1]), P->fs, 2, OPUS_APPLICATION_AUDIO);
+      P->streams = st; P->coupled = cp;
+   } else {
+      OpusMSEncoder *A; unsigned char tmp[4000];
+      P->sz[0] = P->sz[2] = (size_t)opus_multistream_surround_encoder_get_size(6, 1);
+      P->blk[0] = (unsigned char *)malloc(P->sz[0]); P->blk[2] = (unsigned char *)malloc(P->sz[2]);
+      A = (OpusMSEncoder *)P->blk[0];
+      opus_multistream_surround_encoder_init(A, P->fs, 6, 1, &P->streams, &P->coupled, P->mapping, OPUS_APPLICATION_AUDIO);
+      opus_multistream_encoder_ctl(A, OPUS_SET_BITRATE(192000));
+      for (i = 0; i < 4; i++) opus_multistream_encode(A, P->sig[0] + (size_t)i * 960 * 6, 960, tmp, 4000);
+      memcpy(P->blk[2], P->blk[0], P->sz[0]);
+   }
+}
+
+static void pair_free(pair_t *P) { int i; for (i = 0; i < 4; i++) free(P->blk[i]); free(P->arena); free(P->sig[0]); free(P->sig[1]); }
+static void pbar(pair_t *P, int lock) { if (P->use_bar && lock) pthread_barrier_wait(&P->bar2); }
+
+/* one step of thread `me` (0 or 1) of the pair; sub = 0 (thread 1, before), 1 (thread 0), 2 (thread 1, after) */
+static void pair_step(thr_t *t, pair_t *P, int me, int j, int sub)
+{
+   opus_int16 out[960 * 6]; unsigned char buf[4000]; opus_uint32 rng = 0; int n;
+   if ((sub == 1) != (me == 0)) return;
+   switch (P->kind) {
+   case 0: if (sub != 0) { OpusMSDecoder *d = (OpusMSDecoder *)P->blk[me ? 2 : 0]; int k = 6 + j % (PK - 6);
+              n = P->pl[me][k] > 0 ? opus_multistream_decode(d, P->pk[me][k], P->pl[me][k], out, 960, 0) : -99;
+              opus_multistream_decoder_ctl(d, OPUS_GET_FINAL_RANGE(&rng));
+              logev(t, "ms_decode", n, (n > 0 ? hx_fnv(out, sizeof(opus_int16) * (size_t)n * 3) : 0) ^ rng); } break;
+   case 1: if (sub != 0) { OpusEncoder *e = (OpusEncoder *)P->blk[me ? 2 : 0]; OpusDecoder *d = (OpusDecoder *)P->blk[me ? 3 : 1];
+              n = opus_encode(e, P->sig[me] + (size_t)(j % PK) * 960 * 2, 960, buf, 1500); opus_encoder_ctl(e, OPUS_GET_FINAL_RANGE(&rng));
+              logev(t, "encode", n, (n > 0 ? hx_fnv(buf, (size_t)n) : 0) ^ rng);
+              if (n > 0) { int m = opus_decode(d, buf, n, out, 960, 0); logev(t, "decode", m, m > 0 ? hx_fnv(out, sizeof(opus_int16) * (size_t)m * 2) : 0); } } break;
+   case 2:
+      if (me == 0) { OpusMSEncoder *e = (OpusMSEncoder *)(P->arena + P->off[0]);
+         if (j % 2 == 0) logev(t, "mse_reset", opus_multistream_encoder_ctl(e, OPUS_RESET_STATE), 0);
+         n = opus_multistream_encode(e, P->sig[0] + (size_t)(j % PK) * 960 * 3, 960, buf, 4000); opus_multistream_encoder_ctl(e, OPUS_GET_FINAL_RANGE(&rng));
+         logev(t, "ms_encode", n, (n > 0 ? hx_fnv(buf, (size_t)n) : 0) ^ rng);
+      } else { OpusRepacketizer *rp = (OpusRepacketizer *)(P->arena + P->off[1]); OpusDecoder *d = (OpusDecoder *)(P->arena + P->off[2]); int k = j % (PK - 1);
+         if (sub == 0) { opus_repacketizer_init(rp);
+            logev(t, "rp_cat", opus_repacketizer_cat(rp, P->pk[1][k], P->pl[1][k]), (uint64_t)opus_repacketizer_get_nb_frames(rp));
+            logev(t, "rp_cat", opus_repacketizer_cat(rp, P->pk[1][k + 1], P->pl[1][k + 1]), (uint64_t)opus_repacketizer_get_nb_frames(rp));
+            n = opus_decode(d, P->pk[1][k], P->pl[1][k], out, 960, 0); logev(t, "decode", n, n > 0 ? hx_fnv(out, sizeof(opus_int16) * (size_t)n * 2) : 0);
+         } else { logev(t, "rp_nb", opus_repacketizer_get_nb_frames(rp), 0);
+            n = opus_repacketizer_out(rp, buf, 4000); logev(t, "rp_out", n, n > 0 ? hx_fnv(buf, (size_t)n) : 0);
+            n = opus_decode(d, NULL, 0, out, 960, 0); logev(t, "dec_plc", n, n > 0 ? hx_fnv(out, sizeof(opus_int16) * (size_t)n * 2) : 0); }
+      } break;
+   case 3:
+      if (me == 0) { OpusProjectionEncoder *e = (OpusProjectionEncoder *)P->arena;
+         if (j % 2 == 0) logev(t, "pe_reset", opus_projection_encoder_ctl(e, OPUS_RESET_STATE), 0);
+         n = opus_projection_encode(e, P->sig[0] + (size_t)(j % PK) * 960 * 4, 960, buf, 4000); opus_projection_encoder_ctl(e, OPUS_GET_FINAL_RANGE(&rng));
+         logev(t, "pr_encode", n, (n > 0 ? hx_fnv(buf, (size_t)n) : 0) ^ rng);
+      } else if (sub == 2) { OpusEncoder *e = (OpusEncoder *)(P->arena + P->off[1]); opus_int16 st[960 * 2]; int k;
+         for (k = 0; k < 960 * 2; k++) st[k] = P->sig[1][(size_t)(j % PK) * 960 * 4 + (size_t)(k / 2) * 4 + (k & 1)];
+         { opus_int32 br = 0; logev(t, "get_br", opus_encoder_ctl(e, OPUS_GET_BITRATE(&br)), (uint64_t)br); }
+         n = opus_encode(e, st, 960, buf, 1500); opus_encoder_ctl(e, OPUS_GET_FINAL_RANGE(&rng));
+         logev(t, "encode", n, (n > 0 ? hx_fnv(buf, (size_t)n) : 0) ^ rng);
+      } break;
+   default: if (sub != 0) { OpusMSEncoder *e = (OpusMSEncoder *)P->blk[me ? 2 : 0];
+              n = opus_multistream_encode(e, P->sig[me] + (size_t)(j % PK) * 960 * 6, 960, buf, 4000); opus_multistream_encoder_ctl(e, OPUS_GET_FINAL_RANGE(&rng));
+              logev(t, "ms_encode", n, (n > 0 ? hx_fnv(buf, (size_t)n) : 0) ^ rng); } break;
+   }
+}
+
+static pair_t *g_pairs;      /* [pair][round], set up by the main thread */
+static int g_rounds;
+
+static void *pair_thread_main(void *arg)
+{
+   thr_t *t = (thr_t *)arg; int rd, j, me = t->id & 1, p = t->id >> 1;
+   if (t->bar) pthread_barrier_wait(t->bar);
+   for (rd = 0; rd < t->rounds; rd++) {
+      pair_t *P = &g_pairs[(size_t)p * (size_t)g_rounds + (size_t)rd];
+      logev(t, "round", rd, (uint64_t)P->kind);
+      for (j = 0; j < 12; j++) {
+         int lock = j < 6;
+         pbar(P, lock); pair_step(t, P, me, j, 0);
+         pbar(P, lock); pair_step(t, P, me, j, 1);
+         pbar(P, lock); pair_step(t, P, me, j, 2);
+      }
+   }
+   return NULL;
+}
+
 static void *thread_main(void *arg)
 {
    thr_t *t = (thr_t *)arg; int rd; hx_rng r;
@@ -204,10 +375,47 @@ static void *thread_main(void *arg)
    return NULL;
 }
 
+
+static int main_pairs(int conc, uint64_t seed, int n, int rounds)
+{
+   int i, rd, np = n / 2; thr_t *th;
+   if (n < 2 || n > 64 || (n & 1) || rounds < 1) return 2;
+   th = (thr_t *)calloc((size_t)n, sizeof *th); g_rounds = rounds;
+   for (i = 0; i < n; i++) { th[i].id = i; th[i].nthreads = n; th[i].rounds = rounds; th[i].seed = seed; th[i].phase = conc ? "conc" : "solo"; }
+   if (conc) {
+      pthread_t *pt = (pthread_t *)calloc((size_t)n, sizeof *pt); pthread_barrier_t bar;
+      printf("{\"k\":\"conc\",\"seed\":%llu,\"n\":%d,\"rounds\":%d}\n", (unsigned long long)seed, n, rounds);
+      g_pairs = (pair_t *)calloc((size_t)np * (size_t)rounds, sizeof(pair_t));
+      for (i = 0; i < np; i++) for (rd = 0; rd < rounds; rd++) { pair_t *P = &g_pairs[(size_t)i * (size_t)rounds + (size_t)rd]; pair_setup(P, seed, i, rd); P->use_bar = 1; pthread_barrier_init(&P->bar2, NULL, 2); }
+      pthread_barrier_init(&bar, NULL, (unsigned)n);
+      for (i = 0; i < n; i++) { th[i].bar = &bar; if (pthread_create(&pt[i], NULL, pair_thread_main, &th[i])) return 3; }
+      for (i = 0; i < n; i++) pthread_join(pt[i], NULL);
+      for (i = 0; i < n; i++) { dump(&th[i]); free(th[i].ev); }
+      printf("{\"k\":\"done\",\"n\":%d}\n", n);
+      for (i = 0; i < np * rounds; i++) pair_free(&g_pairs[i]);
+      free(g_pairs); free(pt);
+   } else {
+      printf("{\"k\":\"round\",\"seed\":%llu,\"n\":%d,\"rounds\":%d}\n", (unsigned long long)seed, n, rounds);
+      fflush(stdout);
+      for (i = 0; i < n; i++) {
+         pid_t pid = fork();
+         if (pid < 0) return 3;
+         if (pid == 0) {
+            g_pairs = (pair_t *)calloc((size_t)np * (size_t)rounds, sizeof(pair_t));
+            for (rd = 0; rd < rounds; rd++) pair_setup(&g_pairs[(size_t)(i >> 1) * (size_t)rounds + (size_t)rd], seed, i >> 1, rd);
+            pair_thread_main(&th[i]); dump(&th[i]); fflush(stdout); _exit(0);
+         } else { int st = 0; waitpid(pid, &st, 0); if (!WIFEXITED(st) || WEXITSTATUS(st) != 0) return 4; }
+      }
+   }
+   free(th);
+   return 0;
+}
+
 int main(int argc, char **argv)
 {
    int n, rounds, i, conc; uint64_t seed; thr_t *th;
    if (argc < 5) { fprintf(stderr, "usage: hx_par conc|solo <seed> <nthreads> <rounds>\n"); return 2; }
+   if (!strcmp(argv[1], "concp") || !strcmp(argv[1], "solop")) return main_pairs(!strcmp(argv[1], "concp"), strtoull(argv[2], NULL, 10), atoi(argv[3]), atoi(argv[4]));
    conc = !strcmp(argv[1], "conc"); seed = strtoull(argv[2], NULL, 10); n = atoi(argv[3]); rounds = atoi(argv[4]);
    if (n < 1 || n > 64 || rounds < 1) return 2;
    th = (thr_t *)calloc((size_t)n, sizeof *th);
